@@ -657,6 +657,8 @@ def contains(interp, container, x):
         return container.contains(x)
     if isinstance(container, SDict):
         return container.has(x)
+    if isinstance(container, core.SSet):
+        return container.contains(x)
     if isinstance(container, SObj):
         return interp.call(interp.getattr(container, "__contains__"), [x])
     if isinstance(container, (list, tuple)):
